@@ -268,3 +268,50 @@ func (p *Prog) funcByFname(name string) *ssa.Function {
 	}
 	return p.byName[name]
 }
+
+// funcsReturnedBy resolves the function values a constructor returns: a
+// closure (its anonymous function) or a bound method value (the method).
+func (p *Prog) funcsReturnedBy(fn *ssa.Function) []*ssa.Function {
+	var out []*ssa.Function
+	for _, b := range fn.Blocks {
+		for _, in := range b.Instrs {
+			ret, ok := in.(*ssa.Return)
+			if !ok {
+				continue
+			}
+			for _, r := range ret.Results {
+				v := r
+				for n := 0; n < 8; n++ {
+					switch x := v.(type) {
+					case *ssa.ChangeType:
+						v = x.X
+						continue
+					case *ssa.MakeInterface:
+						v = x.X
+						continue
+					}
+					break
+				}
+				switch x := v.(type) {
+				case *ssa.MakeClosure:
+					f := x.Fn.(*ssa.Function)
+					if f.Synthetic != "" {
+						// bound method wrapper: the method it calls
+						for _, bb := range f.Blocks {
+							for _, i2 := range bb.Instrs {
+								if c := callOf(i2); c != nil && c.StaticCallee() != nil {
+									out = append(out, c.StaticCallee())
+								}
+							}
+						}
+					} else {
+						out = append(out, f)
+					}
+				case *ssa.Function:
+					out = append(out, x)
+				}
+			}
+		}
+	}
+	return out
+}
